@@ -219,6 +219,27 @@ CHECKS["C23"] = (
     "DESIGN.md §6 C23",
 )
 
+CHECKS["C08"] = (
+    "Lean 4 theorems over the decision logic of JinjaTemplater.process: the marker search is exactly 'a `{` followed by `{`, `%` or `#`'; "
+    "the fast path is taken only for non-empty marker-free text without macro/library configuration; whether or not it is taken the "
+    "primary rendering equals Jinja's rendering, provided Jinja renders marker-free text to itself. The predicate is corresponded "
+    "with the real code on all small strings x config probes; the contract and the end-to-end property are checked against an "
+    "independently constructed jinja2 environment. Partial: Jinja2 is external.",
+    "Lean 4 proof of decision logic + differential comparison with an independent Jinja2 environment",
+    "Lean kernel; standard axioms; MarkerFreeIdentity is a sampled contract about Jinja2",
+    "DESIGN.md §6 C08",
+)
+CHECKS["C09"] = (
+    "Lean 4 theorem (full, placeholder): for every source, context and match list the rendered text is the source with each matched "
+    "parameter replaced by its configured value or its name (quotation kept, nameless styles numbered) - tied to the code by the C07 "
+    "correspondence over every KNOWN_STYLES key. Python templater (partial): the dot-notation rewrite regex is modelled exactly and "
+    "corresponded with re.sub on all small strings; the templater's output is compared with an independent string.Formatter "
+    "evaluation; two defects of the rewrite regex are kernel-checked witnesses and listed known findings.",
+    "Lean 4 proof (fold invariant) + exhaustive small-scope correspondence of the regex scanner + differential rendering",
+    "Lean kernel; standard axioms; str.format and the regex engines external",
+    "DESIGN.md §6 C09",
+)
+
 NOT_YET = {}
 
 
